@@ -539,3 +539,5 @@ MUTANTS = [
 ]
 
 RENAME_FUNCS = [(F, 'note_sequence_to_pretty_midi'), (F, 'midi_to_note_sequence')]
+
+EXPLANATION += (' Location-independent additions: GROUP/sort-refines-group-key (groupby key vs sort key), ORD/instrument-order (instruments appended in storage-derived order; PrettyMIDI.write keeps list order), FIELDS/<container> reader coverage through add(field=...) and helpers.')
